@@ -181,6 +181,41 @@ def run_case(case, ctx):
 		if ascii_ok:
 			classes.add('str_input')
 		return {'nontrivial': bool(exp), 'classes': sorted(classes)}
+	if kind == 'long_seams':
+		# a sequence longer than any plausible internal block (1.2 M nucleotides of C/G filler, in which a prefix containing A or T
+		# cannot occur) with prefix occurrences planted so that they straddle power-of-two and power-of-ten offsets
+		lim = 2 if ctx.tier == 'quick' else 40
+		if ctx.cache.get('c01_long', 0) >= lim and not case.get('force'):
+			return {'nontrivial': False, 'classes': ['long_seams_skipped(budget)']}
+		ctx.cache['c01_long'] = ctx.cache.get('c01_long', 0) + 1
+		k, p = case['k'], case['prefix']
+		pb = p.encode()
+		kspec = KmerSpec(k, p)
+		tl = len(pb) + k
+		L = case['length']
+		rng = np.random.default_rng(case['seed'])
+		seq = bytearray(np.where(rng.integers(0, 2, size=L, dtype=np.uint8) == 0, 67, 71).astype(np.uint8).tobytes())   # C / G
+		windows = []
+		last_end = 0
+		for seam, d, rev, kseed in sorted(case['hits']):
+			pos = seam + d
+			if pos < last_end + 2 * tl or pos + tl > L - 2 * tl:
+				continue
+			kmer = bytes(b'ACGT'[v] for v in np.random.default_rng(kseed).integers(0, 4, size=k))
+			site = pb + kmer
+			seq[pos:pos + tl] = R.ref_revcomp(site) if rev else site
+			windows.append((pos - 2 * tl, pos + 3 * tl))
+			last_end = pos + tl
+		seq = bytes(seq)
+		exp = set()
+		for a, b in windows:
+			exp.update(R.ref_signature([seq[a:b]], k, pb))
+		exp = sorted(exp)
+		got = _call(lambda: calc_signature(kspec, seq), 'bytes/default', case)
+		_compare(np, got, exp, k, 'long sequence, bytes/default', case)
+		got = _call(lambda: calc_signature(kspec, [R.ref_revcomp(seq)], accumulator=SetAccumulator(k)), 'revcomp/set', case)
+		_compare(np, got, exp, k, 'long sequence reverse-complemented, bytes-list/set', case)
+		return {'nontrivial': len(windows) >= 2, 'classes': ['long_seams', f'planted={min(len(windows), 20)}']}
 	raise ValueError(kind)
 
 
@@ -256,5 +291,23 @@ def seqs_case(draw, tier):
 	        'poison': draw(st.sampled_from([None, None, 'bad_type', 'non_ascii_str', 'none']))}
 
 
+SEAMS = [2 ** e for e in range(12, 21)] + [10 ** 4, 10 ** 5, 10 ** 6, 3 * 2 ** 18, 2 ** 20 + 2 ** 19]
+
+
+@st.composite
+def long_case(draw, tier):
+	k = draw(st.sampled_from([5, 8, 11, 16, 21, 32]))
+	prefix = draw(st.sampled_from(['ATGAC', 'AT', 'TA', 'ATG', 'A', 'TTGACA', 'GATC', 'CAG']))
+	tl = len(prefix) + k
+	hits = []
+	for seam in SEAMS:
+		for _ in range(draw(st.integers(1, 2))):
+			# an occurrence straddling the seam, or the seam shifted by k (overlap regions of block-wise searches)
+			shift = draw(st.sampled_from([0, k, -k, tl, -tl]))
+			hits.append([seam + shift, draw(st.integers(-tl - 1, 1)), draw(st.booleans()), draw(st.integers(0, 2 ** 20))])
+	return {'kind': 'long_seams', 'k': k, 'prefix': prefix, 'length': 2 ** 20 + 2 ** 19 + 70000, 'seed': draw(st.integers(0, 2 ** 20)), 'hits': hits}
+
+
 def strategy(tier):
-	return seqs_case(tier)
+	rare = st.sampled_from([False] * 150 + [True] + [False] * 150)
+	return rare.flatmap(lambda f: long_case(tier) if f else seqs_case(tier))
